@@ -450,7 +450,13 @@ def clause_model(facts, rep, tier):
              O(('x', O(('p', U(0)), ('q', U(0)), ('r', U(0)))), ('y', U(0))), O(('x', O(('q', U(5)), ('r', U(6)), ('p', O(('zz', U(1)))))), ('y', U(7))),
              O(('a', O(('b', U(1))))), O(('a', A(O(('b', U(2)))))), O(('a', U(0))), A(O(('a', U(1)))),
              O(('x', O(('p', A(O(('p', U(1))), U(2))), ('q', O(('zz', O(('p', U(3)))))))), ('y', A(A(O(('y', U(4))))))) ]
-    univ = leaves + l1 + (l2 if tier == 'thorough' else l2[:50]) + three
+    # existing documents built through the DOM API: members that only borrow their characters (constant strings)
+    def Bs(v):
+        t_ = St(v)
+        t_.borrowed = True
+        return t_
+    borrowed = [O(('a', Bs('ss')), ('b', U(1))), O(('b', Bs('s'))), Bs('s')]
+    univ = leaves + l1 + (l2 if tier == 'thorough' else l2[:50]) + three + borrowed
     bad = None
     n = 0
 
